@@ -1,0 +1,28 @@
+//go:build verif
+
+// Machine-checked contracts for package identity (comment-only; read by
+// /verif/gocv). Nothing in this file is compiled into the gateway.
+package identity
+
+//@ func NewUser
+//@   ensures[C13] fresh: result != nil && fresh(result) && result.attributes != nil && !result.authenticated && result.userName == ""
+//@   nopanic[C10]
+
+//@ func (*User).SetAttribute
+//@   requires[C10] attributes: u.attributes != nil
+//@   inline
+//@   nopanic[C10]
+
+// every field is written to the wire struct under its own name ...
+//@ func (*User).Marshal
+//@   assigns #gobEncoded
+//@   ensures[C13] fields: result1 == nil ==> dyn(#gobEncoded, user).Authenticated == u.authenticated && dyn(#gobEncoded, user).UserName == u.userName && dyn(#gobEncoded, user).Domain == u.domain && dyn(#gobEncoded, user).DisplayName == u.displayName && dyn(#gobEncoded, user).Email == u.email && dyn(#gobEncoded, user).AuthTime == u.authTime && dyn(#gobEncoded, user).SessionId == u.sessionId && dyn(#gobEncoded, user).Expiry == u.expiry && dyn(#gobEncoded, user).Attributes == u.attributes && dyn(#gobEncoded, user).GroupMembership == u.groupMembership
+//@   nopanic[C10]
+
+// ... and read back from it under the same name (with gob's decode(encode(x)) == x this is the round trip)
+//@ func (*User).Unmarshal
+//@   assigns u.sessionId, u.userName, u.domain, u.displayName, u.email, u.authenticated, u.authTime, u.expiry, u.attributes, u.groupMembership, #gobDecoded
+//@   ensures[C13] fields: result == nil ==> u.authenticated == dyn(#gobDecoded, ptr(user)).Authenticated && u.userName == dyn(#gobDecoded, ptr(user)).UserName && u.domain == dyn(#gobDecoded, ptr(user)).Domain && u.displayName == dyn(#gobDecoded, ptr(user)).DisplayName && u.email == dyn(#gobDecoded, ptr(user)).Email && u.authTime == dyn(#gobDecoded, ptr(user)).AuthTime && u.sessionId == dyn(#gobDecoded, ptr(user)).SessionId && u.expiry == dyn(#gobDecoded, ptr(user)).Expiry && u.attributes == dyn(#gobDecoded, ptr(user)).Attributes && u.groupMembership == dyn(#gobDecoded, ptr(user)).GroupMembership
+//@   ensures[C10] attributes: result == nil ==> u.attributes != nil
+//@   ensures[C13] failed: result != nil ==> u.authenticated == old(u.authenticated) && u.userName == old(u.userName) && u.attributes == old(u.attributes)
+//@   nopanic[C10]
